@@ -177,7 +177,8 @@ def run_case(case):
                  'start': {'wf': case['wf'], 'input': dict(case['input'])},
                  'outcomes': outcomes, 'strategy': strat,
                  'scheduler': case['scheduler'],
-                 'uuid_seed': case['uuid_seed'] + k}
+                 'uuid_seed': case['uuid_seed'] + k,
+                 'features': case.get('features')}
             if case['family'] == 'reverse':
                 c['start']['params'] = {'task_name': case['target']}
             run = ec.execute(c, auto_resume=True)
@@ -255,6 +256,17 @@ def judge_direct(run, exp, viol):
     if exp.racy:
         # which of two concurrent terminations wins is order-dependent
         cnt['REF_RACY'] = cnt.get('REF_RACY', 0) + 1
+        return
+    # A join that fails *early* (as soon as one inbound route is known to
+    # be impossible) fails at a moment that is not ordered with the other
+    # branches; when its failure leads to a fail / succeed command, what
+    # else had started by then depends on the order of the refresh jobs.
+    # The reference evaluates joins when all inbound tasks are decided.
+    if 'command' in (run.world.case.get('features') or []) and any(
+            (t.get('state_info') or '').startswith('Failed by tasks')
+            for t in run.rows['task'].values()):
+        cnt['REF_RACY_EARLY_JOIN_CMD'] = \
+            cnt.get('REF_RACY_EARLY_JOIN_CMD', 0) + 1
         return
     if root['state'] != exp.state:
         viol('wrong-workflow-state', 'workflow ended %s (%s), the '
